@@ -228,6 +228,13 @@ func (iter *DBIterator) populate() {
 		entry := item.Entry()
 		_, userKey, _ := kv.SplitInternalKey(entry.Key)
 
+		// Bookkeeping the engine stores in the user keyspace (the value-log discard
+		// statistics) is not part of what a client wrote.
+		if bytes.HasPrefix(userKey, internalKeyPrefix) {
+			iter.iitr.Next()
+			continue
+		}
+
 		// Skip entries below lower bound in forward mode, or invalidate in reverse
 		if len(iter.lowerBound) > 0 && bytes.Compare(userKey, iter.lowerBound) < 0 {
 			if !iter.isAsc {
